@@ -6,11 +6,20 @@ region-tiling path of tag_multiome_multi_processing (one_contig_per_process=Fals
 every completion order (<=4 jobs) or every order within 2 adjacent swaps + reversal (more jobs).
 The genome is tiny and holds a molecule on, one before and one after EVERY bin boundary any tiling produces,
 on both strands, with 1-3 duplicates, several cells, rejects and unmapped reads.
+
+Further dimensions, each a letter enumerated next to the main alphabet (thin slice in quick, wide in thorough):
+methods (qflag, nla_no_overhang = cut site OUTSIDE the fragment, nla_taps, chic_taps with a reference written here, nla_transcriptome with exons next to every bin boundary,
+scartrace contig-per-process only), libraries (empty, unmapped reads only, a single molecule, one contig only, no unmapped reads, "odd" =
+chimeric / mate-unmapped / R1-only / single-end / placed-unmapped reads on every boundary), command-line options
+(-tagthreads 1..8, -contig, -skip_contig, -max_time_per_segment, --one_contig_per_process, -assignment_radius, ...), each for the
+tiling AND for contig-per-process, free-running runs with the real multiprocessing.Pool for worker counts 1..8, and the
+observation WHICH job wrote a molecule (records of every job file against the job's ownership intervals).
 """
 import os
 import shutil
 import tempfile
 
+from gen import c08_lib
 from gen.bam import Builder, records
 from mc import tagger
 from mc.bind import HarnessError, seam
@@ -20,12 +29,19 @@ ID = 'C08'
 RULE = ('serial run vs every (bin size, fetch margin, job size, pool on/off) tiling and vs --multiprocess, each under every completion '
         'order of the jobs (all for <=4 jobs, <=2 adjacent swaps + reversal beyond); input holds molecules at B-1,B,B+1 for every bin '
         'boundary B of every tiling, both strands; non-trivial = run with >=3 jobs in a non-submission order; states = tagger runs, '
-        'transitions = records compared')
+        'transitions = records compared; further letters: methods x libraries x options (see bounds), each under the tiling and '
+        'contig-per-process, real-Pool runs per worker count, and per job file: every read-1 record with a DS tag lies in an '
+        'ownership interval of the job that wrote it')
 ASSUMPTIONS = [
     'fetch margin >= longest fragment (60 nt), as the property states; smaller margins are not generated',
     'no blacklist (the tiling path raises NotImplementedError for one)',
     'per-run identifiers (mi, ix) and the order among equal coordinates are not compared',
-    'the worker schedule reaches the output only through the order in which job results are delivered',
+    'the worker schedule reaches the output only through the order in which job results are delivered (owned scheduler); the real '
+    'multiprocessing.Pool is run in addition, free-running, once per worker count',
+    'the cut site of a written molecule is its DS tag (documented as "site location"); records without DS (rejects) are not '
+    'checked for ownership',
+    'methods whose fragments have no cut site (scartrace) have no defined tiling: contig-per-process only',
+    'options with a defined serial counterpart only (--consensus, -blacklist need --multiprocess / external tools: not generated)',
 ]
 CONTIGS = [('c1', 2000), ('c2', 1500), ('c3', 300)]
 # only used by the contig-per-process comparison: small contigs that together exceed the 100 kb small-contig threshold, and a large one
@@ -34,12 +50,43 @@ MAXFRAG = 60
 IGNORE_TAGS = {'mi', 'ix'}
 
 
+OPTION_LETTERS = [
+    # (name, options, modes).  modes: t = region tiling, c = contig-per-process
+    ('contig', ['-contig', 'c2'], 'tc'),
+    ('skip_contig', ['-skip_contig', 'c2,c3'], 'tc'),
+    ('max_time', ['-max_time_per_segment', '100000'], 'tc'),          # a limit no job reaches: nothing may change
+    ('one_contig_flag', ['--one_contig_per_process'], 'c'),
+    ('jobbed', ['-jobbed', '{d}/jobs.bed'], 't'),                     # the job list is written to a file first ({d} = temp dir)
+    ('assignment_radius', ['-assignment_radius', '5'], 'c'),          # the command line forces contig-per-process for it
+    ('every_fragment', ['--every_fragment_as_molecule'], 'tc'),
+    ('max_associated', ['-max_associated_fragments', '2'], 'tc'),    # overflow fragments become molecules of their own
+    ('no_rejects', ['--no_rejects'], 'tc'),
+    ('cycle_shift', ['--allow_cycle_shift'], 'tc'),
+    ('no_motif_check', ['--no_restriction_motif_check'], 'tc'),
+    ('umi_hamming_0', ['-umi_hamming_distance', '0'], 'tc'),
+    ('read_group_format_1', ['-read_group_format', '1'], 'tc'),
+]
+LIBS = ['empty', 'only_unmapped', 'one_molecule', 'one_contig', 'no_unmapped', 'odd']
+EXTRA_METHODS = ['qflag', 'nla_no_overhang', 'nla_taps', 'chic_taps', 'nla_transcriptome', 'scartrace']
+# chic_nla is not generated: its SERIAL pass raises on unmapped / reject molecules (no reference behaviour to compare with)
+
+
 def bounds(tier):
+    more = {'extra_methods': EXTRA_METHODS, 'libraries': ['main'] + LIBS, 'options': [n for n, _, _ in OPTION_LETTERS],
+            'modes': ['tiling', 'contig-per-process'],
+            'job_ownership_observed': 'first (submission order) run of every configuration'}
     if tier == 'quick':
-        return {'bin_sizes': [250, 700, 1000, 5000], 'fetch_margins': [60, 1000], 'job_sizes': ['b', '3b', 'inf'], 'methods': ['nla', 'chic'],
-                'pool': [True, False], 'orders': 'all for <=4 jobs, else <=2 adjacent swaps + reversal'}
-    return {'bin_sizes': [250, 500, 700, 1000, 5000], 'fetch_margins': [60, 100, 1000], 'job_sizes': ['b', '3b', 'inf'],
-            'methods': ['nla', 'chic'], 'pool': [True, False], 'orders': 'all for <=5 jobs, else <=3 adjacent swaps + reversal'}
+        return dict({'bin_sizes': [250, 700, 1000, 5000], 'fetch_margins': [60, 1000], 'job_sizes': ['b', '3b', 'inf'], 'methods': ['nla', 'chic'],
+                     'pool': [True, False], 'orders': 'all for <=4 jobs, else <=2 adjacent swaps + reversal',
+                     'tagthreads': [1, 2, 8], 'real_pool_worker_counts': {'contig-per-process': [1], 'tiling': [3]},   # chic / nla
+                     'options_contig_per_process': [n for n, _, m in OPTION_LETTERS if 'c' in m and n in JOB_LETTERS] + ['tagthreads'],
+                     'extra_method_tilings': [[250, 60, 250], [700, 1000, 2100]], 'library_tilings': [[250, 60, 250], [1000, 60, 10 ** 9]]}, **more)
+    return dict({'bin_sizes': [250, 500, 700, 1000, 5000], 'fetch_margins': [60, 100, 1000], 'job_sizes': ['b', '3b', 'inf'],
+                 'methods': ['nla', 'chic'], 'pool': [True, False], 'orders': 'all for <=5 jobs, else <=3 adjacent swaps + reversal',
+                 'tagthreads': [1, 2, 3, 4, 5, 6, 7, 8],
+                 'real_pool_worker_counts': {'contig-per-process': [1, 2, 3, 4, 5, 6, 7, 8], 'tiling': [1, 2, 3, 4, 5, 6, 7, 8]},
+                 'extra_method_tilings': [[250, 60, 250], [500, 100, 1500], [700, 1000, 2100], [1000, 60, 10 ** 9]],
+                 'library_tilings': [[250, 60, 250], [500, 60, 500], [700, 100, 2100], [1000, 60, 10 ** 9], [5000, 1000, 5000]]}, **more)
 
 
 def tiling_boundaries(tier):
@@ -53,7 +100,7 @@ def tiling_boundaries(tier):
     return out
 
 
-def build_input(path, method, tier, extra=False, dense=False):
+def build_input(path, method, tier, extra=False, dense=False, shifted=False):
     mx = 'scCHIC384C8U3' if method == 'chic' else 'NLAIII384C8U3'
     kw = dict(method=method, mx=mx)
     b = Builder(CONTIGS + (EXTRA_CONTIGS if extra else []))
@@ -88,6 +135,13 @@ def build_input(path, method, tier, extra=False, dense=False):
                     b.pair(contig, site, cell=2, umi=umi, reverse=reverse, frag=55, **kw)
                 if k % 7 == 0:
                     b.pair(contig, site, cell=1, umi='GGG', reverse=reverse, motif='CTTG', frag=50, **kw)   # reject (nla)
+                if shifted and method == 'nla' and k % 5 == 0:
+                    # first base of the motif lost: a reject, but with --allow_cycle_shift a molecule whose site (`site`) lies one
+                    # base OUTSIDE the read
+                    if not reverse and site + 1 + 50 <= length:
+                        b.pair(contig, site + 1, cell=3, umi=umi, motif='ATGA', frag=50, **kw)
+                    if reverse and site - 1 + 4 - 50 >= 0:
+                        b.pair(contig, site - 1, cell=3, umi=umi, reverse=True, motif='ATGT', frag=50, **kw)
         b.pair(contig, min(length - 100, 150), cell=2, umi='TGA', r2_unmapped=True, **kw)
     if dense:
         # a molecule in every 20-base bin, so that a one-bin-per-job tiling produces more than a hundred result files
@@ -145,14 +199,35 @@ def diff_signature(want, got):
     return sigs
 
 
+def is_cpp(cfg):
+    """contig-per-process (what --multiprocess does on the command line): no wrapper around the job builder"""
+    return cfg is None or cfg.get('mode') == 'cpp'
+
+
 class Session:
     """one input BAM + its serial reference output, reused for all tilings of a shard"""
 
-    def __init__(self, method, tier, extra=False, dense=False):
+    def __init__(self, method, tier, extra=False, dense=False, lib='main', shifted=False):
         self.method = method
+        base, needs_ref, _, needs_gtf = c08_lib.METHODS[method]
         self.d = tempfile.mkdtemp(prefix='c08_', dir='/dev/shm')
         self.inp = os.path.join(self.d, 'in.bam')
-        build_input(self.inp, method, tier, extra=extra, dense=dense)
+        self.base_opts = []
+        contigs = CONTIGS + (EXTRA_CONTIGS if extra else [])
+        sites = None
+        if base == 'noov':
+            sites = c08_lib.noov_sites(CONTIGS, tiling_boundaries(tier))
+            c08_lib.build_noov(self.inp, CONTIGS, sites, MAXFRAG, extra_contigs=(EXTRA_CONTIGS if extra else []))
+        elif lib == 'main':
+            build_input(self.inp, base, tier, extra=extra, dense=dense, shifted=shifted)
+        else:
+            c08_lib.build_kind(self.inp, lib, CONTIGS, base, tiling_boundaries(tier), MAXFRAG)
+        if needs_ref:
+            ref = os.path.join(self.d, 'ref.fa')
+            c08_lib.write_ref(ref, contigs, sites)
+            self.base_opts = ['-ref', ref]
+        if needs_gtf:
+            self.base_opts += ['-exons', c08_lib.write_gtf(os.path.join(self.d, 'exons.gtf'), CONTIGS, tiling_boundaries(tier))]
         self.nrec = len(records(self.inp))
         self._serial = {}
         self.serial, self.serial_error = self.serial_for(())
@@ -165,27 +240,48 @@ class Session:
             for p in (out, out + '.bai'):
                 if os.path.exists(p):
                     os.remove(p)
-            exc, _ = tagger.run_tagger([self.inp, '-method', self.method, '-o', out, '-temp_folder', self.d] + list(opts))
+            exc, _ = tagger.run_tagger([self.inp, '-method', self.method, '-o', out, '-temp_folder', self.d] + self.base_opts + list(opts))
             self._serial[opts] = (None, exc) if exc is not None else (canon(records(out)), None)
         return self._serial[opts]
 
     def close(self):
         shutil.rmtree(self.d, ignore_errors=True)
 
-    def run_parallel(self, cfg, order, extra_opts=()):
-        """cfg: None (= --multiprocess contig per process) or dict(b, f, j, pool). Returns (violations, njobs)"""
+    def run_parallel(self, cfg, order, extra_opts=(), observe_jobs=False):
+        """cfg: None / mode 'cpp' (= --multiprocess contig per process) or dict(b, f, j, pool). Returns (violations, njobs)"""
         tm = tagger.tagger_module()
         out = os.path.join(self.d, 'par.bam')
         for p in (out, out + '.bai'):
             if os.path.exists(p):
                 os.remove(p)
-        opts = list((cfg or {}).get('opts', ())) + list(extra_opts)
-        serial, serial_error = self.serial_for(opts)
+        opts = [o.replace('{d}', self.d) for o in list((cfg or {}).get('opts', ())) + list(extra_opts)]
+        # worker count: not an option of the serial pass
+        serial, serial_error = self.serial_for(without_worker_count(opts))
+        cpp = is_cpp(cfg)
+        tag = 'contig-per-process' if cpp else ('tiling' + ('' if cfg['pool'] else ':no-pool'))
         if serial is None:
+            if (cfg or {}).get('lenient_serial'):
+                return [], None            # the option has no serial counterpart for this method: outside the property
             return [(f'{self.method}:serial:exception:{type(serial_error).__name__}', repr(serial_error))], None
-        argv = [self.inp, '-method', self.method, '-o', out, '-temp_folder', self.d, '--multiprocess'] + opts
+        argv = [self.inp, '-method', self.method, '-o', out, '-temp_folder', self.d, '--multiprocess'] + self.base_opts + opts
+        if (cfg or {}).get('real_pool'):
+            # free-running, real multiprocessing.Pool, fresh interpreter
+            if cpp:
+                err = tagger.run_tagger_subprocess(argv)
+            else:
+                err = c08_lib.run_tiling_subprocess(cfg['b'], cfg['f'], cfg['j'], argv)
+            if err is not None:
+                return [(f'{self.method}:{tag}:real-pool-run-failed', err)], None
+            if not os.path.exists(out):
+                return [(f'{self.method}:{tag}:real-pool:no-output', {})], None
+            got = canon(records(out))
+            if got == serial:
+                return [], None
+            return [(f'{self.method}:{tag}:real-pool:{s}', d) for s, d in diff_signature(serial, got)], None
         real = seam(tm, 'tag_multiome_multi_processing')
-        if cfg is not None:
+        real_rtt = seam(tm, 'run_tagging_tasks')
+        misplaced = []
+        if not cpp:
             def wrapper(**kw):
                 kw['one_contig_per_process'] = False
                 kw['bp_per_segment'] = cfg['b']
@@ -194,25 +290,77 @@ class Session:
                 kw['use_pool'] = cfg['pool']
                 return real(**kw)
             tm.tag_multiome_multi_processing = wrapper
+        if observe_jobs:
+            def observed(args):
+                res = real_rtt(args)
+                try:
+                    path, tasks = res[0], args[1]
+                except Exception:
+                    return res
+                if path and os.path.exists(path):
+                    misplaced.extend(not_owned(path, tasks))
+                return res
+            tm.run_tagging_tasks = observed
         try:
             exc, sch = tagger.run_tagger(argv, order=order)
         finally:
             tm.tag_multiome_multi_processing = real
-        tag = 'contig-per-process' if cfg is None else ('tiling' + ('' if cfg['pool'] else ':no-pool'))
+            tm.run_tagging_tasks = real_rtt
         njobs = sch.log[0]['n'] if sch.log else None
         if exc is not None:
             return [(f'{self.method}:{tag}:exception:{type(exc).__name__}', repr(exc))], njobs
         if not os.path.exists(out):
             return [(f'{self.method}:{tag}:no-output', {})], njobs
+        viols = []
+        for pl in sch.pools:
+            if pl['processes'] is not None and pl['processes'] < 1:
+                # multiprocessing.Pool raises ValueError('Number of processes must be at least 1')
+                viols.append((f'{self.method}:{tag}:pool-created-with-less-than-one-worker', {'processes': pl['processes'], 'options': opts}))
+        if misplaced:
+            viols.append((f'{self.method}:{tag}:molecule-written-by-a-job-whose-bins-do-not-contain-its-site', misplaced[:3]))
         got = canon(records(out))
         if got == serial:
-            return [], njobs
+            return viols, njobs
         if opts:
             tag += ':' + opts[0].lstrip('-')
-        return [(f'{self.method}:{tag}:{s}', d) for s, d in diff_signature(serial, got)], njobs
+        return viols + [(f'{self.method}:{tag}:{s}', d) for s, d in diff_signature(serial, got)], njobs
 
 
-def configs(tier):
+def without_worker_count(opts):
+    out, skip = [], False
+    for o in opts:
+        if skip:
+            skip = False
+        elif o == '-tagthreads':
+            skip = True
+        else:
+            out.append(o)
+    return out
+
+
+def not_owned(path, tasks):
+    """read-1 / single-end records of one job file whose DS (site location) is in none of the job's ownership intervals"""
+    import pysam
+    bad = []
+    with pysam.AlignmentFile(path, check_sq=False) as f:
+        for r in f.fetch(until_eof=True):
+            if r.is_read2 or r.is_unmapped or r.is_secondary or r.is_supplementary or not r.has_tag('DS'):
+                continue
+            ds = r.get_tag('DS')
+            ok = False
+            for t in tasks:
+                if t['contig'] != r.reference_name:
+                    continue
+                if t['start'] is None or t['start'] <= ds < t['end']:
+                    ok = True
+                    break
+            if not ok:
+                bad.append({'read': r.query_name, 'contig': r.reference_name, 'site': ds,
+                            'job_bins': [(t['contig'], t['start'], t['end']) for t in tasks][:6]})
+    return bad
+
+
+def base_configs(tier):
     bd = bounds(tier)
     out = [None]
     for b in bd['bin_sizes']:
@@ -233,67 +381,170 @@ def configs(tier):
     return out
 
 
+TILE = {'b': 250, 'f': 60, 'j': 750, 'pool': True}
+CPP = {'mode': 'cpp', 'pool': True}
+
+
+JOB_LETTERS = {'contig', 'skip_contig', 'max_time', 'one_contig_flag', 'jobbed', 'assignment_radius'}   # options the job builder reads
+
+
+def option_bundles(tier):
+    """one letter per command-line option, for the tiling and for contig-per-process; light input, identity + reversed order.
+    A bundle shares one input file.  quick: options which only shape the molecules run under the tiling alone."""
+    bd = bounds(tier)
+    light = {'few_orders': True, 'light': True}
+    threads = []
+    for t in bd['tagthreads']:
+        threads.append(dict(TILE, opts=['-tagthreads', str(t)], **light))
+        threads.append(dict(CPP, opts=['-tagthreads', str(t)], **light))
+    jobs, shaping = [], []
+    for name, opts, modes in OPTION_LETTERS:
+        dest = jobs if name in JOB_LETTERS else shaping
+        if 't' in modes:
+            dest.append(dict(TILE, opts=opts, lenient_serial=True, **light))
+        if 'c' in modes and (tier != 'quick' or name in JOB_LETTERS):
+            dest.append(dict(CPP, opts=opts, lenient_serial=True, **light))
+    # the same history of restricted / unrestricted calls as for the tiling, contig-per-process
+    jobs.append(dict(CPP, history=['c2', None, 'c1', None], **light))
+    out = [threads, jobs]
+    n = 4 if tier == 'quick' else 3
+    out += [shaping[k:k + n] for k in range(0, len(shaping), n)]
+    return out
+
+
+def real_pool_bundles(tier, method):
+    """free-running runs with the real Pool, one per worker count (quick: one mode per method)"""
+    bd = bounds(tier)
+    out = []
+    if tier != 'quick' or method == 'chic':
+        for t in bd['real_pool_worker_counts']['contig-per-process']:
+            out.append([dict(CPP, opts=['-tagthreads', str(t)], real_pool=True, light=True)])
+    if tier != 'quick' or method == 'nla':
+        for t in bd['real_pool_worker_counts']['tiling']:
+            out.append([dict({'b': 250, 'f': 60, 'j': 250, 'pool': True}, opts=['-tagthreads', str(t)], real_pool=True, light=True)])
+    return out
+
+
+def library_bundles(tier):
+    out = []
+    for lib in LIBS:
+        one = [dict(CPP, lib=lib, few_orders=True, light=True)]
+        for b, f, j in bounds(tier)['library_tilings']:
+            one.append({'b': b, 'f': f, 'j': j, 'pool': True, 'lib': lib, 'few_orders': True, 'light': True})
+        one.append({'b': 250, 'f': 60, 'j': 250, 'pool': False, 'lib': lib, 'light': True})
+        out.append(one)
+    return out
+
+
+def extra_method_bundles(tier, method):
+    out = [[dict(CPP, extra=True, few_orders=True, light=True)]]
+    if c08_lib.METHODS[method][2]:
+        one = []
+        for b, f, j in bounds(tier)['extra_method_tilings']:
+            one.append({'b': b, 'f': f, 'j': j, 'pool': True, 'few_orders': True, 'light': True})
+        one.append({'b': 250, 'f': 60, 'j': 250, 'pool': False, 'light': True})
+        out.append(one)
+    return out
+
+
+def bundles(tier, method):
+    """list of lists of configurations; the configurations of one list share one input file (one shard)"""
+    if method in bounds(tier)['methods']:
+        return [[c] for c in base_configs(tier)] + option_bundles(tier) + real_pool_bundles(tier, method) + library_bundles(tier)
+    return extra_method_bundles(tier, method)
+
+
 def shards(tier):
     out = []
-    for method in bounds(tier)['methods']:
-        for i, cfg in enumerate(configs(tier)):
+    for method in bounds(tier)['methods'] + EXTRA_METHODS:
+        for i, _ in enumerate(bundles(tier, method)):
             out.append((method, i))
     return out
 
 
+def session_key(cfg):
+    if cfg is None:
+        return ('main', True, False, False)
+    if cfg.get('light'):
+        return (cfg.get('lib', 'main'), bool(cfg.get('extra')), False, True)
+    return ('main', False, bool(cfg.get('few_orders')), False)
+
+
+def session_for(method, cfg, tier):
+    lib, extra, dense, shifted = session_key(cfg)
+    return Session(method, tier, extra=extra, dense=dense, lib=lib, shifted=shifted)
+
+
 def run_shard(shard, tier, acc):
-    method, ci = shard
-    cfg = configs(tier)[ci]
-    ses = Session(method, tier, extra=(cfg is None), dense=bool(cfg and cfg.get('few_orders')))
+    method, bi = shard
+    cfgs = bundles(tier, method)[bi]
+    if len({session_key(c) for c in cfgs}) != 1:
+        raise HarnessError(f'C08: bundle {bi} of {method} mixes input files')
+    ses = session_for(method, cfgs[0], tier)
     try:
         if ses.serial is None:
             case = {'method': method, 'cfg': None, 'order': None, 'tier': tier}
             acc.case(case, outcome='serial-failed')
             acc.violation(f'{method}:serial:exception:{type(ses.serial_error).__name__}', case, repr(ses.serial_error))
             return
-        if cfg is not None and cfg.get('history'):
-            for step, contig in enumerate(cfg['history']):
-                extra = ['-contig', contig] if contig else []
-                case = {'method': method, 'cfg': cfg, 'order': None, 'tier': tier, 'history_step': step}
-                viols, njobs = ses.run_parallel(cfg, None, extra_opts=extra)
-                viols = [(sg + ':in-a-history-of-calls', d) for sg, d in viols]
-                _report(acc, case, viols, njobs, ses.nrec)
-            return
-        # first run in submission order tells how many jobs there are
-        case = {'method': method, 'cfg': cfg, 'order': None, 'tier': tier}
-        viols, njobs = ses.run_parallel(cfg, None)
-        _report(acc, case, viols, njobs, ses.nrec)
-        if njobs and njobs > 1 and (cfg is None or cfg['pool']):
-            full, swaps = (4, 2) if tier == 'quick' else (5, 3)
-            order_list = sched_orders(njobs, full_upto=full, swaps=swaps)
-            if cfg is not None and cfg.get('few_orders'):
-                order_list = [tuple(range(njobs)), tuple(reversed(range(njobs)))]
-            for o in order_list:
-                if list(o) == list(range(njobs)):
-                    continue
-                case = {'method': method, 'cfg': cfg, 'order': list(o), 'tier': tier}
-                viols, nj = ses.run_parallel(cfg, list(o))
-                _report(acc, case, viols, nj, ses.nrec)
+        for cfg in cfgs:
+            run_config(ses, method, cfg, tier, acc)
     finally:
         ses.close()
 
 
+def run_config(ses, method, cfg, tier, acc):
+    if cfg is not None and cfg.get('history'):
+        for step, contig in enumerate(cfg['history']):
+            extra = ['-contig', contig] if contig else []
+            case = {'method': method, 'cfg': cfg, 'order': None, 'tier': tier, 'history_step': step}
+            viols, njobs = ses.run_parallel(cfg, None, extra_opts=extra)
+            viols = [(sg + ':in-a-history-of-calls', d) for sg, d in viols]
+            _report(acc, case, viols, njobs, ses.nrec)
+        return
+    # first run in submission order tells how many jobs there are
+    case = {'method': method, 'cfg': cfg, 'order': None, 'tier': tier}
+    viols, njobs = ses.run_parallel(cfg, None, observe_jobs=True)
+    _report(acc, case, viols, njobs, ses.nrec)
+    if njobs and njobs > 1 and (cfg is None or cfg['pool']):
+        full, swaps = (4, 2) if tier == 'quick' else (5, 3)
+        order_list = sched_orders(njobs, full_upto=full, swaps=swaps)
+        if cfg is not None and cfg.get('few_orders'):
+            order_list = [tuple(range(njobs)), tuple(reversed(range(njobs)))]
+        for o in order_list:
+            if list(o) == list(range(njobs)):
+                continue
+            case = {'method': method, 'cfg': cfg, 'order': list(o), 'tier': tier}
+            viols, nj = ses.run_parallel(cfg, list(o))
+            _report(acc, case, viols, nj, ses.nrec)
+
+
 def _report(acc, case, viols, njobs, nrec):
     cfg = case['cfg']
-    lab = 'contig-per-process' if cfg is None else f"b={cfg['b']},f={cfg['f']},pool={cfg['pool']}"
-    acc.case(case, transitions=nrec, nontrivial=((njobs or 0) >= 3 and case['order'] is not None),
+    if cfg is None:
+        lab = 'contig-per-process'
+    else:
+        lab = 'contig-per-process' if is_cpp(cfg) else f"b={cfg['b']},f={cfg['f']},pool={cfg['pool']}"
+        if cfg.get('lib'):
+            lab += ',lib=' + cfg['lib']
+        if cfg.get('opts') and cfg.get('light'):
+            lab += ',' + ' '.join(cfg['opts']).lstrip('-')
+        if cfg.get('real_pool'):
+            lab += ',real-pool'
+    real_pool = bool(cfg and cfg.get('real_pool'))
+    acc.case(case, transitions=nrec, nontrivial=(real_pool or ((njobs or 0) >= 3 and case['order'] is not None)),
              outcome=f"{case['method']}:{lab}:jobs={njobs}:viol={len(viols)}")
     for sig, d in viols:
         acc.violation(sig, case, d)
 
 
 def replay(case):
-    ses = Session(case['method'], case.get('tier', 'quick'), extra=(case['cfg'] is None),
-                  dense=bool(case['cfg'] and case['cfg'].get('few_orders')))
+    cfg = case['cfg']
+    tier = case.get('tier', 'quick')
+    ses = session_for(case['method'], cfg, tier)
     try:
         if ses.serial is None:
             return [(f"{case['method']}:serial:exception:{type(ses.serial_error).__name__}", repr(ses.serial_error))]
-        cfg = case['cfg']
         if cfg is not None and cfg.get('history'):
             out = []
             for step, contig in enumerate(cfg['history']):
@@ -301,6 +552,6 @@ def replay(case):
                 if step == case.get('history_step'):
                     out = [(sg + ':in-a-history-of-calls', d) for sg, d in v]
             return out
-        return ses.run_parallel(cfg, case['order'])[0]
+        return ses.run_parallel(cfg, case['order'], observe_jobs=(case['order'] is None))[0]
     finally:
         ses.close()
